@@ -7,7 +7,7 @@ import re
 from ..loader import AnalysisError, dotted, norm, walk_no_defs
 from ..paths import Executor, Semantics
 from ..regexlang import Unsupported as RxUnsupported
-from ..regexlang import compile_nfa, find_in_intersection
+from ..regexlang import compile_nfa, find_in_difference, find_in_intersection
 from ..report import RuleReport
 
 LEVEL = 'other'
@@ -146,6 +146,30 @@ def r2_codecs(a, tier):
             w = find_in_intersection(r, inside)
         except RxUnsupported as e:
             raise AnalysisError(f'rle_decode: cannot decide pass 1 regex {val!r}: {e}') from e
+        # K3: every marker the encoder can write is a token of the decoder (same run-character class, same count syntax)
+        enc_rx = [n.args[0].value for n in walk_no_defs(encf.node) if isinstance(n, ast.Call) and dotted(n.func) == 're.compile'
+                  and n.args and isinstance(n.args[0], ast.Constant) and isinstance(n.args[0].value, str)]
+        enc_rx += [ast.literal_eval(v.args[0]) for nm, v in a.p.module(cm).assigns.items() if isinstance(v, ast.Call)
+                   and dotted(v.func) == 're.compile' and v.args and isinstance(v.args[0], ast.Constant)
+                   and any(isinstance(x, ast.Name) and x.id == nm for x in ast.walk(encf.node))]
+        grp = None
+        for rx_ in enc_rx:
+            m_ = re.match(r'^\((\[[^\]]*\]|\.|\\?.)\)\\1\{\d+,\d*\}$', rx_)
+            if m_:
+                grp = m_.group(1)
+        if grp is None:
+            raise AnalysisError(f'rle_encode: run pattern `(<class>)\\1{{n,}}` not found among {enc_rx}')
+        try:
+            written = compile_nfa(f'{d}(?s:{grp})[0-9]+{d}')
+            w3 = find_in_difference(written, compile_nfa(val))
+        except RxUnsupported as e:
+            raise AnalysisError(f'rle codec: cannot decide marker inclusion: {e}') from e
+        rep.add({'encoder_run_character': grp, 'decoder_tokens': val, 'marker_written_but_not_read': w3})
+        if w3 is not None:
+            rep.fail(decf.qualname, f'K3:{grp}', f'rle_encode writes a marker for a run of any character matching {grp} (newline included: the '
+                     f'class is applied to the whole text), but the decoder token {val!r} does not match the marker {w3!r}: a string with '
+                     f'four or more such characters in a row is delivered as the marker text - the run-length layer is not lossless',
+                     f'{decf.module.relpath}:{line}')
         handles_esc = f'{esc}{esc}' in val.replace('\\', '')
         rep.add({'decoder_pass_1': val, 'matches_inside_escaped_delimiter': w, 'same_pass_handles_escape': handles_esc})
         if w is not None and not (single_pass and handles_esc):
